@@ -7,7 +7,7 @@ import ast
 from ..guards import Lit, Normaliser, canon, facts_at_end
 from ..index import walk_no_nested
 from ..report import Result
-from ..rules import rb_states, rv_validate
+from ..rules import rb_states, rv_validate, rw_layering
 from ..source import AnalysisError, src
 
 SIM = "lightworks/emulator/simulation/simulator.py"
@@ -108,6 +108,7 @@ def check(ctx) -> Result:
     good = params[:3] == ["unitary", "in_state", "out_state"] and "out_state" in aug.get(rown, set()) and "in_state" not in aug.get(rown, set()) and "in_state" in aug.get(coln, set()) and "out_state" not in aug.get(coln, set())
     res.add(good, "M4-rows-outputs-cols-inputs", "partition", part.site(), part.qualname, "rows repeated by output occupations, columns by input occupations (U[out, in])",
             f"sub-matrix rows come from {sorted(aug.get(rown, set()) & {'in_state', 'out_state'})} and columns from {sorted(aug.get(coln, set()) & {'in_state', 'out_state'})}: the transpose amplitude is computed", construct=src(rets[0].value))
+    rw_layering.who_may_call(ctx, res, {"perm"}, {"Permanent.calculate"}, "W-permanent-owner", "the permanent is divided by the factorials of all occupations in one place", 1)
     # herald insertion iterates positions
     ah = ctx.func(HER, "add_heralds_to_state")
     loops = [l for l in walk_no_nested(ah.node) if isinstance(l, ast.For)]
